@@ -21,7 +21,21 @@ def canon(vt, v):
     return str(v)
 
 
+DECOY = [False]
+_SHORT = {'f': 'g', 'o': 'q', 'p': 'r', 'v': 'w', 'x': 'y'}
+
+
+def LN(l):
+    """long name / sub-command name as given to the REAL parser: the decoy twin (same static type) gets other names"""
+    return l + 'x' if DECOY[0] else l
+
+
+def SN(s):
+    return _SHORT[s] if (DECOY[0] and s) else s
+
+
 def osn(s):
+    s = SN(s)
     return 'o::optional_short_name{o::short_name{"%s"}}' % s if s else 'o::optional_short_name{}'
 
 
@@ -35,18 +49,18 @@ def names(s, l):
 
 
 def arg(label, vt='Int'):
-    return P('o::argument<%s, %s>{o::long_name{"%s"}, o::optional_help_text{}}' % (label, CPPT[vt], label),
+    return P('o::argument<%s, %s>{o::long_name{"%s"}, o::optional_help_text{}}' % (label, CPPT[vt], LN(label)),
              'leaf(K::Arg, "%s", VT::%s)' % (label, vt), ['red'] if vt == 'Color' else [], [label])
 
 
 def sw(label, s, l):
-    return P('o::switch_<%s>{%s, o::long_name{"%s"}, o::optional_help_text{}}' % (label, osn(s), l),
+    return P('o::switch_<%s>{%s, o::long_name{"%s"}, o::optional_help_text{}}' % (label, osn(s), LN(l)),
              'leaf(K::Switch, "%s", VT::Int, "%s", "%s")' % (label, s, l), names(s, l), [label])
 
 
 def flag(label, s, l, vt, act, inact):
     return P('o::flag<%s, %s>{%s, o::long_name{"%s"}, o::make_active_value(%s), o::make_inactive_value(%s), o::optional_help_text{}}'
-             % (label, CPPT[vt], osn(s), l, lit(vt, act), lit(vt, inact)),
+             % (label, CPPT[vt], osn(s), LN(l), lit(vt, act), lit(vt, inact)),
              'with_values(leaf(K::Flag, "%s", VT::%s, "%s", "%s"), "%s", "%s")' % (label, vt, s, l, canon(vt, act), canon(vt, inact)),
              names(s, l), [label])
 
@@ -58,7 +72,7 @@ def opt(label, s, l, vt='Int', default=None):
     else:
         d = 'o::make_default_value(fcppt::optional::make(%s))' % lit(vt, default)
         spec = 'with_default(leaf(K::Opt, "%s", VT::%s, "%s", "%s"), "%s")' % (label, vt, s, l, canon(vt, default))
-    return P('o::option<%s, %s>{%s, o::long_name{"%s"}, %s, o::optional_help_text{}}' % (label, CPPT[vt], osn(s), l, d),
+    return P('o::option<%s, %s>{%s, o::long_name{"%s"}, %s, o::optional_help_text{}}' % (label, CPPT[vt], osn(s), LN(l), d),
              spec, names(s, l) + (['red'] if vt == 'Color' else []), [label])
 
 
@@ -67,7 +81,7 @@ def unit(label):
 
 
 def usw(label, s, l):
-    return P('o::unit_switch<%s>{%s, o::long_name{"%s"}}' % (label, osn(s), l),
+    return P('o::unit_switch<%s>{%s, o::long_name{"%s"}}' % (label, osn(s), LN(l)),
              'leaf(K::UnitSwitch, "%s", VT::Int, "%s", "%s")' % (label, s, l), names(s, l), [label])
 
 
@@ -101,7 +115,7 @@ def many(a):
 def commands(common, subs):
     alpha, _, pre = merge([common] + [s[2] for s in subs])
     cpp = 'o::make_commands(%s, %s)' % (common.cpp, ', '.join(
-        'o::make_sub_command<%s>("%s", %s, o::optional_help_text{})' % (tag, name, p.cpp) for (name, tag, p) in subs))
+        'o::make_sub_command<%s>("%s", %s, o::optional_help_text{})' % (tag, LN(name), p.cpp) for (name, tag, p) in subs))
     spec = 'commands(%s, {%s}, {%s}, {%s})' % (common.spec, ', '.join('"%s"' % s[0] for s in subs),
                                                ', '.join('"%s"' % s[1] for s in subs), ', '.join(s[2].spec for s in subs))
     return P(cpp, spec, alpha + [s[0] for s in subs], ['options', 'sub'], pre)
@@ -119,7 +133,7 @@ def commands_named(common, subs):
     pre += '  auto named_common_%d{%s};\n' % (k, common.cpp)
     names = []
     for i, (name, tag, p) in enumerate(subs):
-        pre += '  auto named_sub_%d_%d{o::make_sub_command<%s>("%s", %s, o::optional_help_text{})};\n' % (k, i, tag, name, p.cpp)
+        pre += '  auto named_sub_%d_%d{o::make_sub_command<%s>("%s", %s, o::optional_help_text{})};\n' % (k, i, tag, LN(name), p.cpp)
         names.append('named_sub_%d_%d' % (k, i))
     args = ', '.join(['named_common_%d' % k] + names)
     pre += '  auto const first_construction_%d{o::make_commands(%s)};\n  (void)first_construction_%d;\n' % (k, args, k)
@@ -231,6 +245,10 @@ def write_if_changed(path, content):
 
 def generate(outdir, group=4):
     sh = shapes()
+    DECOY[0] = True
+    decoys = shapes()
+    DECOY[0] = False
+    decoy_of = {name: p for (name, p) in decoys}
     labels = '\n'.join('FCPPT_RECORD_MAKE_LABEL(%s);' % l for l in LABELS)
     paths = []
     groups = [sh[i:i + group] for i in range(0, len(sh), group)]
@@ -241,11 +259,17 @@ def generate(outdir, group=4):
             fn = 'c03_shape_%d_%d' % (gi, si)
             decls.append(fn)
             alpha = ', '.join('"%s"' % a for a in sorted(set(p.alpha)))
-            body += ('void %s()\n{\n  bool constructed = false;\n  vf::set_entry("options/%s");\n  try\n  {\n%s  auto const parser{%s};\n'
+            d = decoy_of[name]
+            # the decoy twin: ANOTHER parser object of the SAME static type with other run-time names, built and used
+            # first - whatever the library remembers per parser type (not per object) is then wrong for `parser`
+            body += ('void %s()\n{\n  bool constructed = false;\n  vf::set_entry("options/%s");\n  try\n  {\n'
+                     '%s  auto const decoy{%s};\n  c03::use_decoy(decoy);\n'
+                     '%s  auto const parser{%s};\n'
+                     '  static_assert(std::is_same_v<decltype(decoy), decltype(parser)>, "the decoy must have the type of the parser");\n'
                      '  constructed = true;\n  run_shape("%s", parser, %s, {%s});\n  }\n'
                      '  catch (fcppt::exception const &ex)\n  {\n'
                      '    vf::violation(std::string("options/%s/") + (constructed ? "parse-threw" : "well-formed-definition-rejected"), "exception", ex.string());\n  }\n}\n') % (
-                fn, name, p.pre, p.cpp, name, p.spec, alpha, name)
+                fn, name, d.pre, d.cpp, p.pre, p.cpp, name, p.spec, alpha, name)
         path = os.path.join(outdir, 'c03_shapes_%02d.cpp' % gi)
         write_if_changed(path, body)
         paths.append(path)
